@@ -4312,3 +4312,119 @@ def psd1(proj, rep, modules=None):
                                   f'as not PSD', m, c)
     rep.count('PSD1.calls', n)
     return n
+
+
+RULE_CAST1 = ('CAST1: inside a branch whose test admits a complex dtype for an array (`x.dtype in {.., complex64}`, `x.dtype == complex128`, `is_complex`), that array is not '
+              'cast to a real floating dtype (.to(float64), .double(), .float(), astype(float64)): the imaginary part is discarded with a warning only.')
+_CPLX = ('complex64', 'complex128', 'cfloat', 'cdouble', 'complex')
+_REALF = ('float64', 'float32', 'double', 'float', 'float16', 'half')
+
+
+def cast1(proj, rep, modules=None):
+    rep.rule('CAST1', RULE_CAST1)
+    n = 0
+    for fi in proj.iter_functions():
+        m = fi.module
+        if not _in_scope(m, modules):
+            continue
+        for g in ast.walk(fi.node):
+            if not isinstance(g, ast.If):
+                continue
+            arr = None
+            for c in ast.walk(g.test):
+                if isinstance(c, ast.Compare) and isinstance(c.left, ast.Attribute) and c.left.attr == 'dtype' and isinstance(c.left.value, ast.Name) \
+                        and isinstance(c.ops[0], (ast.In, ast.Eq)) and any(ast.unparse(x).split('.')[-1] in _CPLX for x in ast.walk(c.comparators[0]) if isinstance(x, (ast.Attribute, ast.Name))):
+                    arr = c.left.value.id
+                elif isinstance(c, ast.Call) and ast.unparse(c.func).split('.')[-1] in ('is_complex', 'iscomplexobj') and (
+                        (c.args and isinstance(c.args[0], ast.Name)) or (isinstance(c.func, ast.Attribute) and isinstance(c.func.value, ast.Name) and c.func.value.id not in ('torch', 'np'))):
+                    arr = c.args[0].id if c.args and isinstance(c.args[0], ast.Name) else c.func.value.id
+            if arr is None or any(isinstance(x, ast.Not) for x in ast.walk(g.test)):
+                continue
+            n += 1
+            rep.touch(m)
+            bad = None
+            for s in g.body:
+                for c in ast.walk(s):
+                    if isinstance(c, ast.Call) and isinstance(c.func, ast.Attribute) and isinstance(c.func.value, ast.Name) and c.func.value.id == arr:
+                        if c.func.attr in ('double', 'float', 'half') and not c.args:
+                            bad = c
+                        elif c.func.attr in ('to', 'astype', 'type') and c.args and ast.unparse(c.args[0]).split('.')[-1] in _REALF and not isinstance(c.args[0], ast.Constant):
+                            bad = c
+            if bad is not None:
+                rep.violation('CAST1', fi.qual, f'`{ast.unparse(bad)[:60]}` inside `if {ast.unparse(g.test)[:50]}`: the branch is taken for complex `{arr}` too, and the cast keeps '
+                              f'the real part only', m, bad)
+            else:
+                rep.ok('CAST1', fi.qual, f'`if {ast.unparse(g.test)[:50]}`: no real cast of `{arr}` inside', m, g)
+    rep.count('CAST1.complex_admitting_branches', n)
+    return n
+
+
+RULE_EVS1 = ('EVS1: where `subset_by_index=(lo, hi)` is chosen per end of the spectrum (smallest / largest), both choices request the same number hi - lo + 1 of eigenvalues '
+             '(decided on the linear forms of lo and hi): (0, k-1) against (N-k-1, N-1) asks for k+1 values at the top and `[0]` is then the second largest.')
+
+
+def _linform(e):
+    """linear form {name: coef, 1: const} of an integer expression, or None."""
+    if isinstance(e, ast.Constant) and isinstance(e.value, int):
+        return {1: e.value}
+    if isinstance(e, ast.Name):
+        return {e.id: 1}
+    if isinstance(e, ast.UnaryOp) and isinstance(e.op, ast.USub):
+        a = _linform(e.operand)
+        return None if a is None else {k: -v for k, v in a.items()}
+    if isinstance(e, ast.BinOp) and isinstance(e.op, (ast.Add, ast.Sub)):
+        a, b = _linform(e.left), _linform(e.right)
+        if a is None or b is None:
+            return None
+        out = dict(a)
+        for k, v in b.items():
+            out[k] = out.get(k, 0) + (v if isinstance(e.op, ast.Add) else -v)
+        return {k: v for k, v in out.items() if v != 0}
+    return None
+
+
+def evs1(proj, rep, modules=None):
+    rep.rule('EVS1', RULE_EVS1)
+    n = 0
+    for fi in proj.iter_functions():
+        m = fi.module
+        if not _in_scope(m, modules):
+            continue
+        for c in ast.walk(fi.node):
+            if not (isinstance(c, ast.Call) and any(k.arg == 'subset_by_index' for k in c.keywords)):
+                continue
+            v = next(k.value for k in c.keywords if k.arg == 'subset_by_index')
+            arms = []
+            if isinstance(v, ast.IfExp):
+                arms = [v.body, v.orelse]
+            elif isinstance(v, ast.Name):
+                for val, st, path in reaching_defs(fi.node, v.id, c):
+                    if isinstance(val, ast.IfExp):
+                        arms = [val.body, val.orelse]
+                    elif isinstance(val, ast.AST):
+                        arms.append(val)
+            arms = [a for a in arms if isinstance(a, (ast.Tuple, ast.List)) and len(a.elts) == 2]
+            if len(arms) < 2:
+                continue
+            n += 1
+            rep.touch(m)
+            widths = []
+            for a in arms:
+                lo, hi = _linform(a.elts[0]), _linform(a.elts[1])
+                if lo is None or hi is None:
+                    widths = None
+                    break
+                w = dict(hi)
+                for k, x in lo.items():
+                    w[k] = w.get(k, 0) - x
+                widths.append({k: x for k, x in w.items() if x != 0})
+            if widths is None:
+                rep.undecided('EVS1', fi.qual, f'`{ast.unparse(v)[:60]}` bounds are not linear forms', m, c)
+                n -= 1
+            elif all(w == widths[0] for w in widths):
+                rep.ok('EVS1', fi.qual, f'both ends request hi - lo = {widths[0]}', m, c)
+            else:
+                rep.violation('EVS1', fi.qual, f'the index windows {[ast.unparse(a) for a in arms]} have different widths {widths}: one end of the spectrum returns a different '
+                              f'number of eigenvalues, so a fixed `[0]` / `[-1]` picks the wrong one', m, c)
+    rep.count('EVS1.windows', n)
+    return n
